@@ -68,7 +68,7 @@ Inductive cond :=
 | CForeign.                  (* sink.adjusted_current_node_present_but_not_in_html_namespace() *)
 
 Inductive cmd :=
-| CreateTag (k : tagkind) (e : cexp) | PushTag (e : cexp) | DiscardTag | DiscardChar
+| CreateTag (k : tagkind) (e : cexp) | PushTag (e : cexp) | DiscardTag | DiscardChar | DiscardWs
 | PushTemp (e : cexp) | ClearTemp | CreateAttr (e : cexp) | PushName (e : cexp) | PushValue (e : cexp)
 | AppendValueRun | PushComment (e : cexp) | AppendComment (s : str) | EmitComment | ClearComment
 | CreateDoctype | PushDoctypeName (e : cexp) | PushDoctypeId (k : kind) (e : cexp) | ClearDoctypeId (k : kind)
